@@ -33,13 +33,33 @@ type relation struct {
 	cols   []relCol
 	rows   [][]any
 	sample []any // one representative value per column (never used as data)
+	// nullable[i]: column i is statically Nullable (declared Nullable(...) or
+	// computed by a syntactically nullable expression, see staticNullable).
+	// May be shorter than cols (missing = not nullable).
+	nullable []bool
+}
+
+func (r *relation) isNullable(i int) bool { return i >= 0 && i < len(r.nullable) && r.nullable[i] }
+
+// padNullable returns the flags padded to the number of columns.
+func (r *relation) padNullable() []bool {
+	out := make([]bool, len(r.cols))
+	copy(out, r.nullable)
+	return out
 }
 
 func (r *relation) typeName(i int) string {
 	for _, row := range r.rows {
 		if row[i] != nil {
-			return typeNameOf(sampleMerge(r, i, row[i]))
+			n := typeNameOf(sampleMerge(r, i, row[i]))
+			if r.isNullable(i) {
+				return "Nullable(" + n + ")"
+			}
+			return n
 		}
+	}
+	if r.isNullable(i) && r.sample != nil && i < len(r.sample) && r.sample[i] != nil {
+		return "Nullable(" + typeNameOf(r.sample[i]) + ")"
 	}
 	if r.sample != nil && i < len(r.sample) && r.sample[i] != nil {
 		if len(r.rows) > 0 {
@@ -72,7 +92,7 @@ func sampleMerge(r *relation, i int, v any) any {
 // withQualifier returns a shallow copy whose columns are all qualified by q
 // (what `FROM x AS q` does).
 func (r *relation) withQualifier(q string) *relation {
-	out := &relation{rows: r.rows, sample: r.sample}
+	out := &relation{rows: r.rows, sample: r.sample, nullable: r.nullable}
 	out.cols = make([]relCol, len(r.cols))
 	for i, c := range r.cols {
 		out.cols[i] = relCol{name: c.name, qual: q}
@@ -138,7 +158,10 @@ func (q *queryCtx) execUnion(u *SelectUnion, sc *cteScope) (*relation, error) {
 				}
 			}
 		}
-		out := &relation{cols: acc.cols, sample: acc.sample}
+		out := &relation{cols: acc.cols, sample: acc.sample, nullable: acc.padNullable()}
+		for c, n := range next.padNullable() {
+			out.nullable[c] = out.nullable[c] || n
+		}
 		switch op {
 		case OpUnionAll:
 			out.rows = append(append([][]any{}, acc.rows...), next.rows...)
@@ -225,6 +248,9 @@ func (q *queryCtx) execSelect(s *Select, parent *cteScope) (*relation, error) {
 		out.sample = sample[0].vals
 	} else {
 		out.sample = make([]any, len(cols))
+	}
+	for _, c := range cols {
+		out.nullable = append(out.nullable, blk.staticNullable(src, c, nil))
 	}
 
 	// 4. the real rows
@@ -481,6 +507,7 @@ func (q *queryCtx) tableRelation(te *TableExpr, sc *cteScope) (*relation, *table
 	for i, c := range t.cols {
 		rel.cols = append(rel.cols, relCol{name: c.Name, qual: te.Name()})
 		rel.sample = append(rel.sample, sampleValue(t.types[i]))
+		rel.nullable = append(rel.nullable, t.types[i].Name == "Nullable")
 	}
 	return rel, t, nil
 }
@@ -581,7 +608,7 @@ func (q *queryCtx) buildSource(s *Select, sc *cteScope) (*relation, *scanRec, er
 
 func (q *queryCtx) arrayJoin(s *Select, sc *cteScope, left *relation, j *Join) (*relation, error) {
 	blk := &block{q: q, sel: s, scope: sc, aliases: map[string]Expr{}}
-	out := &relation{cols: append([]relCol{}, left.cols...)}
+	out := &relation{cols: append([]relCol{}, left.cols...), nullable: left.padNullable()}
 	// target column index for each expression: alias -> new column; bare
 	// identifier without alias -> replaces that column
 	targets := make([]int, len(j.ArrayList))
@@ -729,7 +756,8 @@ func (q *queryCtx) tableJoin(s *Select, sc *cteScope, left *relation, j *Join) (
 	default:
 		return nil, unsupportedf("%s JOIN", j.Kind)
 	}
-	out := &relation{cols: append(append([]relCol{}, left.cols...), right.cols...)}
+	out := &relation{cols: append(append([]relCol{}, left.cols...), right.cols...),
+		nullable: append(left.padNullable(), right.padNullable()...)}
 	nl := len(left.cols)
 	// USING columns: equality of same-named columns; the right copies are kept
 	// (qualified access still works) but unqualified names resolve to the left.
